@@ -13,7 +13,7 @@ import types
 ROOT = os.path.dirname(os.path.dirname(os.path.abspath(__file__)))
 sys.path.insert(0, ROOT)
 STATS = {}
-MODS = ["contracts.options", "contracts.inventory", "contracts.warnings", "contracts.slug", "contracts.directives", "contracts.parse_html", "contracts.invreader", "contracts.lines", "contracts.render", "contracts.links", "contracts.footnotes", "contracts.heading", "contracts.render2"]
+MODS = ["contracts.options", "contracts.inventory", "contracts.warnings", "contracts.slug", "contracts.directives", "contracts.parse_html", "contracts.invreader", "contracts.lines", "contracts.render", "contracts.links", "contracts.footnotes", "contracts.heading", "contracts.render2", "contracts.rundirective"]
 
 
 def _wrap(target, fn, funcheck, fs):
@@ -99,8 +99,13 @@ def install(mods=None):
 
     funcheck.load_contracts(mods or MODS)
     for target, fs in list(REG.funs.items()):
-        if target.startswith("ext:") or getattr(fs, "until", None):
-            continue  # (a prefix contract says nothing about the function's return)
+        if target.startswith("ext:"):
+            continue
+        if getattr(fs, "until", None):
+            # a prefix contract says nothing about the function's return: what is evaluated is the (assumed) view its callers use
+            fs = getattr(fs, "callers", None)
+            if fs is None:
+                continue
         try:
             modn, qual = target.split(":")
             mod = importlib.import_module(modn)
